@@ -198,15 +198,15 @@ def tiny_frames():
 # ----------------------------------------------------------------------------- group: estimators / model.fit on all DAGs
 def gen_fit(tier, seed):
     for i, fr in enumerate(tiny_frames()):
-        if tier != "quick" or i % 2 == 0:
+        if tier != "quick" or i % 3 == 0:
             fr["dags"] = "all"
             yield fr
     rng = O.mk_rng(seed, "c06-fit")
-    for k in range(56 if tier == "quick" else 400):
+    for k in range(44 if tier == "quick" else 400):
         four = tier != "quick" and k % 5 == 0
         fr = seeded_frame(rng, 4 if four else rng.choice((2, 3, 3, 3)))
         fr["dags"] = 12 if four else "all"
-        if k % 28 == 5:
+        if k % 22 == 5:
             fr["n_jobs"] = 2
         yield fr
 
@@ -260,6 +260,7 @@ def build_bn(cols, edges, rng=None):
 
 def check_fit(case):
     _quiet()
+    import networkx as nx
     from pgmpy.estimators import BayesianEstimator, MaximumLikelihoodEstimator
 
     F = Fails()
@@ -311,21 +312,32 @@ def check_fit(case):
         want_b = {v: expected_cpd(N[v], pseudo[v]) for v in cols}
         m2 = build_bn(cols, edges, rng)
         be = BayesianEstimator(m2, df, **sn_kw)
+        isolated = [v for v in cols if not any(v in e for e in edges)]
         for v in cols:
             kw1 = dict(kw)
             for k in ("equivalent_sample_size", "pseudo_counts"):
                 if isinstance(kw1.get(k), dict):
                     kw1[k] = kw1[k][v]
-            d = compare_cpd(be.estimate_cpd(v, **kw1, **wkw), v, par[v], states, want_b[v])
+            try:
+                cpd = be.estimate_cpd(v, **kw1, **wkw)
+            except nx.NetworkXError as e:
+                if v not in isolated:
+                    raise
+                F.add("BayesianEstimator.estimate_cpd:isolated-nodes", f"edges {edges} on nodes {cols}: estimate_cpd({v!r}) raises {type(e).__name__}: {e}")
+                continue
+            d = compare_cpd(cpd, v, par[v], states, want_b[v])
             if d:
                 F.add(f"BayesianEstimator.estimate_cpd:{kind}", f"edges {edges} node {v!r} {kw1}: {d}")
         m2.fit(df, estimator=BayesianEstimator, n_jobs=n_jobs, **sn_kw, **kw, **wkw)
+        dropped = [v for v in isolated if m2.get_cpds(v) is None]
+        if dropped:
+            F.add("fit:Bayesian:isolated-nodes", f"edges {edges} on nodes {cols}: fit(estimator=BayesianEstimator) leaves {dropped} without CPD")
         for v in cols:
-            d = compare_cpd(m2.get_cpds(v), v, par[v], states, want_b[v])
+            d = None if v in dropped else compare_cpd(m2.get_cpds(v), v, par[v], states, want_b[v])
             if d:
                 F.add(f"fit:Bayesian:{kind}", f"edges {edges} node {v!r} {kw}: {d}")
         try:
-            ok = m2.check_model()
+            ok = True if dropped else m2.check_model()
         except ValueError as e:
             ok = e
         if ok is not True:
@@ -459,7 +471,9 @@ def check_fit_update(case):
             by_name[cfg] = [old["table"][k][jo] * npv for k in range(len(states[v]))]
             as_laid_out[cfg] = [old["table"][k][j] * npv for k in range(len(states[v]))]   # column j taken positionally
         d = compare_cpd(m.get_cpds(v), v, ps, states, expected_cpd(N, by_name))
-        if d:
+        if d and not any(v in e for e in edges) and compare_cpd(m.get_cpds(v), v, ps, states, {(): [old["table"][k][0] for k in range(len(states[v]))]}) is None:
+            F.add("fit_update:isolated-nodes", f"node {v!r} has no edges; its CPD is not updated at all: {d}")
+        elif d:
             positional = old["parents"] != ps and compare_cpd(m.get_cpds(v), v, ps, states, expected_cpd(N, as_laid_out)) is None
             F.add("fit_update:parent-order" if positional else "fit_update:value",
                   f"node {v!r}, previous CPD evidence order {old['parents']}, n_prev={npv}: {d}"
@@ -510,7 +524,8 @@ def gen_em(tier, seed):
                 ncol = math.prod(len(states[p]) for p in ps)
                 colv = [O.random_column(rng, len(states[v])) for _ in range(ncol)]
                 init[v] = {"parents": ps, "table": [[str(colv[j][i]) for j in range(ncol)] for i in range(len(states[v]))]}
-        fr.update(mode=mode, edges=edges, latent_card=lcard, init=init, em_seed=rng.randrange(1000), K=3 if tier == "quick" else 5)
+        fr.update(mode=mode, edges=edges, latent_card=lcard, init=init, em_seed=rng.randrange(1000), K=3 if tier == "quick" else 5,
+                  iter0=(k % 12 == 1))   # max_iter=0 itself is called on every 12th model only (input-independent behaviour)
         yield fr
 
 
@@ -594,10 +609,14 @@ def check_em(case):
             return float(expected_cpd(counts(case, states, v, ps))[tuple(pa[p] for p in ps)][states[v].index(s)])
         lls.append(loglik(case, states, edges, P0))
         try:
-            c0 = run(0)
+            c0 = run(0) if case.get("iter0") else None
+            if c0 is None:
+                raise StopIteration
             l0 = loglik(case, states, edges, cpd_prob(c0))
             if not O.close(l0, lls[0], 1e-9):
                 F.add("EM:max_iter-0-value", f"max_iter=0 returns parameters with log-likelihood {l0!r}, initial parameters have {lls[0]!r}")
+        except StopIteration:
+            pass
         except UnboundLocalError as e:
             F.add("EM.get_parameters:max_iter-0", f"max_iter=0 does not return the initial parameters: {type(e).__name__}: {e}")
     for k in range(1, case["K"] + 1):
@@ -631,7 +650,7 @@ def nontrivial(case):
 def groups(tier):
     return [
         Group("fit", gen_fit, check_fit, nontrivial, engine="E3",
-              bound="frames: every 2nd (thorough: every) multiset of <= 3 rows over 3 binary columns + 56 (400) seeded frames (2-3 columns, thorough "
+              bound="frames: every 3rd (thorough: every) multiset of <= 3 rows over 3 binary columns + 44 (400) seeded frames (2-3 columns, thorough "
                     "1/5 with 4; <= 30 rows; cards 1..3; int / object / categorical columns; declared extra and re-ordered states; 30% with a "
                     "_weight column incl. zero weights) x ALL DAGs on the columns (12 sampled for 4 columns), node and edge insertion order "
                     "shuffled, alternately on the frame as given and on rows-shuffled/columns-reversed: MLE + one of K2/BDeu/BDeu-per-node/"
